@@ -12,7 +12,7 @@ K_CONTEXT = [
 PROPS = {
     'C02': {'units': ['expr', 'lower', 'opt', 'fuse', 'fvalid', 'optm', 'run19'], 'kani': K_ANALYSIS + [{'crate': 'p3-circuit', 'harness': 'c02_allocator_monotone'}]},
     'C03': {'units': ['opt', 'fuse', 'fvalid', 'optm'], 'kani': K_ANALYSIS},
-    'C19': {'units': ['run19', 'pexec'], 'kani': K_CONTEXT, 'only': {'pexec': r'resolve_private_data'}},
+    'C19': {'units': ['run19', 'pexec'], 'kani': K_CONTEXT, 'only': {'pexec': r'resolve_private_data|execute\[base_dispatch|RecomposeExecutor::execute'}},
     'C20': {'units': ['gad', 'quot', 'fri', 'periodic', 'fquery'], 'kani': [], 'only': {'fri': r'evaluate_polynomial|circuit_exp_by_constant|lemma_', 'fquery': r'final_query_point'}},
     'C07': {'units': ['fri', 'shape', 'fold', 'fchain', 'fquery', 'evpts', 'openin', 'onehot'], 'kani': [], 'only': {'shape': r'verify_fri_circuit'}, 'exclude': r'possible (bit shift|arithmetic)'},
     'C05': {'units': ['chal', 'coef', 'bind'], 'kani': [], 'exclude': r'canonical_width', 'only': {'coef': r'select_path', 'bind': r'add_poseidon[12]_perm_for_challenger(_base)?\.ensures\[(frame|shape|succeeds_when_enabled)\]'}},
